@@ -414,6 +414,21 @@ pub fn run_c16(out: &mut Out, rng: &mut Rng, thorough: bool, only: Option<&str>)
         for p in crate::fam_codec::confusables(&hex_text_unchecked(v, &crate::fam_codec::ff_image(v, rng), true)).into_iter().take(if thorough { 100 } else { 10 }) {
             payloads.push(p);
         }
+        // two independent faults: a header the strict parser rejects AND a byte that is not UTF-8 further on
+        {
+            let mut b = good.clone();
+            b[v.ck_len()] = 0xaa;
+            let mut t = hex_text_unchecked(v, &b, true);
+            let l = t.len();
+            t[l - 3] = 0xff;
+            payloads.push(t);
+            let mut b = good.clone();
+            b[0] = 0x31;
+            let mut t = hex_text_unchecked(v, &b, false);
+            let l = t.len();
+            t[l / 2] = 0x80;
+            payloads.push(t);
+        }
         // forms derived from the canonical text: doubled prefix, one digit more / less
         {
             let canon = hex_text_unchecked(v, &good, true);
